@@ -1000,6 +1000,15 @@ fn optic_menu(out: &mut Out, path: &str, rt: &Rt, engine: &Engine, infos: &BTree
                 ats.push(CoordinateAt::Provenance(ProvenanceRef { worldline_id: *w, worldline_tick: wt(t), commit_hash: i.entries[t as usize].2 }));
             }
             ats.push(CoordinateAt::Provenance(ProvenanceRef { worldline_id: wl(UNKNOWN), worldline_tick: wt(0), commit_hash: [0; 32] }));
+            // a full provenance coordinate that names a commit this history does not contain: right
+            // worldline and tick, foreign commit hash (and the hash of ANOTHER tick of the same worldline)
+            for t in 0..i.len {
+                ats.push(CoordinateAt::Provenance(ProvenanceRef { worldline_id: *w, worldline_tick: wt(t), commit_hash: [0xEE; 32] }));
+                if i.len >= 2 {
+                    let other = i.entries[((t + 1) % i.len) as usize].2;
+                    ats.push(CoordinateAt::Provenance(ProvenanceRef { worldline_id: *w, worldline_tick: wt(t), commit_hash: other }));
+                }
+            }
         }
         for at in ats {
             for sh in shapes() {
@@ -1090,7 +1099,18 @@ fn optic_menu(out: &mut Out, path: &str, rt: &Rt, engine: &Engine, infos: &BTree
                 let oat = match at {
                     CoordinateAt::Frontier => Some(ObservationAt::Frontier),
                     CoordinateAt::Tick(t) => Some(ObservationAt::Tick(*t)),
-                    CoordinateAt::Provenance(r) if r.worldline_id == *cw => Some(ObservationAt::Tick(r.worldline_tick)),
+                    CoordinateAt::Provenance(r) if r.worldline_id == *cw => {
+                        // the coordinate names (worldline, tick, commit): if the recorded entry at that
+                        // tick has another commit hash, the named commit is not part of this history
+                        if let Some(i) = infos.get(cw) {
+                            if let Some(e) = i.entries.get(r.worldline_tick.as_u64() as usize) {
+                                if e.2 != r.commit_hash {
+                                    app.insert("ProvenanceCoordinateNamesNoRecordedCommit".into());
+                                }
+                            }
+                        }
+                        Some(ObservationAt::Tick(r.worldline_tick))
+                    }
                     CoordinateAt::Provenance(_) => {
                         app.insert("ConflictingFrontier".into());
                         None
@@ -1165,7 +1185,7 @@ fn optic_menu(out: &mut Out, path: &str, rt: &Rt, engine: &Engine, infos: &BTree
             ObserveOpticResult::Obstructed(ob) => {
                 let k = kind_name(ob.kind);
                 out.o(format!("optic_obstruction:{k}"));
-                if !app.contains(&k) {
+                if !app.contains(&k) && !app.contains("ProvenanceCoordinateNamesNoRecordedCommit") {
                     out.v(
                         format!("c16:optic:unexpected obstruction {k}"),
                         path,
